@@ -392,8 +392,7 @@ func (e *Eval) compile(node ast.Node) error {
 		// value, and no clean termination.  Instead we'd walk
 		// off the end of our bytecode array.
 		//
-		if len(e.instructions) == 0 ||
-			code.Opcode(e.instructions[len(e.instructions)-1]) != code.OpReturn {
+		if e.lastOpcode() != code.OpReturn {
 			e.emit(code.OpVoid)
 			e.emit(code.OpReturn)
 		}
@@ -896,6 +895,19 @@ func (e *Eval) compile(node ast.Node) error {
 		return fmt.Errorf("unknown node type %T %v", node, node)
 	}
 	return nil
+}
+
+// lastOpcode returns the opcode of the last instruction emitted, or
+// OpNop if there is none.
+//
+// The instructions are decoded from the start, because the final byte
+// might be an operand rather than an opcode.
+func (e *Eval) lastOpcode() code.Opcode {
+	last := code.OpNop
+	for ip := 0; ip < len(e.instructions); ip += code.Length(last) {
+		last = code.Opcode(e.instructions[ip])
+	}
+	return last
 }
 
 // addConstant adds a constant to the pool
